@@ -314,7 +314,7 @@ def _visitors():
 NULLARY = ["new-leaf-1", "new-leaf-9"]
 UNARY = [
     "wrap-tuple", "wrap-optional", "wrap-required", "wrap-list", "attach", "detach", "detach_self", "replace-property", "replace-noop", "replace-bad-key", "replace-forbidden-key",
-    "replace_with-None", "duplicate", "duplicate-detached", "transform-inc", "transform-remove-even", "transform-raises", "transform-raises-late", "transformer-inc", "transformer-remove", "transformer-fresh",
+    "replace_with-None", "duplicate", "duplicate-detached", "transform-inc", "transform-remove-even", "transform-raises", "transform-raises-late", "transform-reused-visitor-raises-late", "transformer-inc", "transformer-remove", "transformer-fresh",
 ]
 BINARY = ["wrap-pair", "wrap-abstract-sequence", "replace_with", "replace-child", "transform-return-existing"]
 ALL_OPS = NULLARY + UNARY + BINARY  # the guided-only operations (DETACHED_WRAPS) are unary as well
@@ -395,6 +395,17 @@ def apply_op(op: str, r: Any, a: Any) -> Any:
         return Raises().transform(r)
     if op == "transform-raises-late":
         return RaisesLate().transform(r)
+    if op == "transform-reused-visitor-raises-late":
+        # one visitor object, used a second time after a transformation of some other (attached) tree was rejected
+        vis = RaisesLate()
+        other = LZ.LTup(items=(LZ.LLeaf(v=771, origin=o), LZ.LLeaf(v=772, origin=o)), origin=o)
+        try:
+            vis.transform(other)
+        except Exception:  # noqa: BLE001
+            pass
+        for n_ in (other, *other.items):
+            n_.detach_self()
+        return vis.transform(r)
     if op == "transform-return-existing":
         from pyoak.legacy.node import ASTTransformVisitor
 
@@ -522,6 +533,12 @@ def make_harness(K: int, which: str, first_ops: list[str] | None = None, later_o
                 result = apply_op(op, r, a)
                 outcome = "ok"
             except Exception as ex:  # noqa: BLE001
+                import traceback as _tb
+
+                if not any("/pyoak/" in f_.filename for f_ in _tb.extract_tb(ex.__traceback__)):
+                    if isinstance(ex, AttributeError):
+                        e.assume(False)  # the operation reads a field this receiver's class does not have: not applicable
+                    raise  # raised by this harness alone (no frame of the library): a harness error, not a rejected operation
                 result = None
                 outcome = type(ex).__name__
                 rejection_site = _rejection_site(ex)
